@@ -175,7 +175,22 @@ static bool plant(Plant &p, int cls, Rng &r) {
             probe(U("_m_probe ['x''y']"), CIF_MISSING_SPACE, [&](DBlock &blk) { MValue l; l.kind = CIF_LIST_KIND; l.elems.push_back(MValue::chr(U("x"), true)); l.elems.push_back(MValue::chr(U("y"), true)); add_scalar(blk, "_m_probe", l); }); return true;
         case DF_MISSING_SPACE_NAME: if (!v2) return false;
             probe(U("_m_probe 'x'_m_probe2 2"), CIF_MISSING_SPACE, [&](DBlock &blk) { add_scalar(blk, "_m_probe", MValue::chr(U("x"), true)); add_scalar(blk, "_m_probe2", MValue::numb(U("2"))); }); return true;
-        case DF_STRAY_DELIM: if (!v2) return false; probe(r.chance(1, 2) ? U("]") : U("}"), CIF_UNEXPECTED_DELIM, [](DBlock &) {}); return true;
+        case DF_STRAY_DELIM: {
+            if (!v2) return false;
+            ustr d = r.chance(1, 2) ? U("]") : U("}");
+            // half of the time inside a loop body (on a packet boundary or in the middle of a packet): the delimiter is dropped, the
+            // loop body is not terminated and nothing else changes
+            const ItemSite *l = r.chance(1, 2) ? pick([&](const ItemSite &x) { return x.item->kind == D_LOOP && !x.item->packets.empty(); }) : NULL;
+            if (l) {
+                std::vector<size_t> idx = toks_of(T, l->ord); auto g = value_groups(T, idx); size_t m = l->item->names.size();
+                if (g.size() == m * l->item->packets.size() && g.size() >= 2) {
+                    size_t k = (size_t) r.range(1, (long) g.size() - 1); size_t at = T[g[k].first].start;
+                    // a text field begins with its line terminator: the insertion goes in front of it, separated by blanks
+                    insert_at(at, d + U(" ")); p.code = CIF_UNEXPECTED_DELIM; p.defect_off = at; p.next_off = at + 2; p.where = (k % m == 0) ? "loop_packet_boundary" : "loop_mid_packet"; return true;
+                }
+            }
+            probe(d, CIF_UNEXPECTED_DELIM, [](DBlock &) {}); return true;
+        }
         case DF_MISSING_DELIM_LIST: if (!v2) return false;
             probe(U("_l_probe [1 2"), CIF_MISSING_DELIM, [&](DBlock &blk) { MValue l; l.kind = CIF_LIST_KIND; l.elems.push_back(MValue::numb(U("1"))); l.elems.push_back(MValue::numb(U("2"))); add_scalar(blk, "_l_probe", l); }); return true;
         case DF_MISSING_DELIM_TABLE: if (!v2) return false;
